@@ -254,6 +254,11 @@ def check(run, views, tier):
                     continue
                 cmds = [t for t in p.trace if is_call(t) and t[1].startswith("ipputil::do_")]
                 ok = len(cmds) == 1 and any(c[0] == "if" and is_call(c[1], "<is_err>") and c[2] is False and same(c[1][2][0], cmds[0]) for c in p.conds)
+                if not ok and len(cmds) == 1:
+                    r_ = p.ret
+                    while is_call(r_, "std::result::Result::<T, E>::map_err") and r_[2]:
+                        r_ = r_[2][0]
+                    ok = r_ is cmds[0] or same(r_, cmds[0])      # the command's own result is main's result (error converted, never dropped)
                 run.ob("R-PRINTGATE", "main: command result propagated with ?", ok, "Ok path with commands %s" % [c[1] for c in cmds], site(mb),
                        key="R-PRINTGATE|ipputil::main|propagate")
                 if cmds and cmds[0][1] == "ipputil::do_print_job":
